@@ -132,10 +132,40 @@ def gen_cases(ctx):
     for vi, verb in enumerate(restgen.VERBS):
         i = g.iface(name="Client", nmethods=2, verb=verb, struct=True, dict=True, nscalar=2)
         cases.append(make_case("v%d" % vi, i, calls_for(g, i, 3)))
-    for k in range(ctx.n(70, 1500)):
+    for k in range(ctx.n(150, 1500)):
         i = g.iface()
-        cases.append(make_case("r%d" % k, i, calls_for(g, i, ctx.n(3, 4))))
+        kw = {}
+        if ctx.rng.random() < 0.15:
+            kw = perturb(ctx.rng, i)
+        cases.append(make_case("r%d" % k, i, calls_for(g, i, ctx.n(3, 4), **kw)))
     return cases
+
+
+def perturb(rng, i):
+    """push a random interface into the finding regions (the model must still predict the implementation exactly)"""
+    kw = {}
+    for what in rng.sample(["mixed", "nostruct", "ptrdict", "twodicts", "qual", "nilstruct", "brace"], rng.choice([1, 1, 2])):
+        ms = i["methods"]
+        m = rng.choice(ms)
+        qverb = m["verb"] not in restgen.BODY_VERBS
+        used = set(p["name"] for p in m["params"]) | {"ctx"}
+        if what == "mixed" and len(ms) >= 2:
+            m["ctx"] = None if m.get("ctx") else "ctx"
+        elif what == "nostruct" and not qverb:
+            m["params"] = [p for p in m["params"] if p["kind"] != "struct"]
+        elif what == "ptrdict":
+            for p in m["params"]:
+                if p["kind"] == "dict":
+                    p["ptr"] = True
+        elif what == "twodicts" and "more" not in used:
+            m["params"].append({"name": "more", "kind": "dict", "type": "map[string]string", "ptr": False, "role": "dict"})
+        elif what == "qual" and qverb and "wait" not in used and not any(p["kind"] == "struct" for p in m["params"]):
+            m["params"].append({"name": "wait", "kind": "qual", "type": "time.Duration", "ptr": False, "role": "query"})
+        elif what == "nilstruct":
+            kw["nil_struct"] = 0.6
+        elif what == "brace":
+            kw["brace"] = 0.5
+    return kw
 
 
 def classify_gen(r):
